@@ -148,6 +148,70 @@ example : let s := mpz_lcm ex6 1 1 2 3; s.ok = true ∧ view (s.h 1) = ⟨3, 3, 
 -- negative: `MPZ_REALLOC (r, usize)` — the carry limb `rp[usize] = c` leaves the block
 example : (lcm_ 0 ex6 0 1 2 3).ok = false := by decide
 
+/-- the arm `one` of mpz_lcm as a statement about `lcmOne` (u and v in either role) -/
+theorem lcmOne_safe (s : St) (r u v : Nat) (hs : s.ok = true)
+    (hr : OWF (s.h r)) (hu : OWF (s.h u)) (hv : OWF (s.h v)) (hu0 : (s.h u).size ≠ 0) (hv1 : (s.h v).size.natAbs = 1) :
+    Safe s (lcmOne 1 s r u v (s.h u).size.natAbs) r (Spec.lcmOne (view (s.h r)) (view (s.h u)) ((view (s.h v)).d.headD junk)) ∧
+    Mpz.toInt (Spec.lcmOne (view (s.h r)) (view (s.h u)) ((view (s.h v)).d.headD junk)) =
+      (Nat.lcm (Mpz.toInt (view (s.h u))).natAbs (Mpz.toInt (view (s.h v))).natAbs : Nat) := by
+  have R := lcmOne_refines s r u v hs hr hu hv (by omega)
+  have hvl := view_d_length hv
+  obtain ⟨x, hd⟩ := List.length_eq_one_iff.mp (hvl.trans hv1)
+  have hx : x < B := view_limbs hv x (by rw [hd]; simp)
+  have hx0 : x ≠ 0 := by
+    have := hv.2.2.2.2.2
+    rw [hd] at this
+    intro h; subst h; simp at this
+  have E := Spec.lcmOne_spec (view (s.h r)) (view (s.h u)) x hr.2.1 hu.2 hu0 hx hx0
+  rw [hd] at R ⊢
+  simp only [List.headD_cons] at R ⊢
+  refine ⟨R.safe E.1, ?_⟩
+  rw [E.2, toInt_natAbs, toInt_natAbs, hd]
+  simp [val]
+
+/-- mpz_lcm (mpz/lcm.c), every arm before TMP_MARK (lcm.c:36-71: a zero operand, v of one limb, u of one limb — the last one
+    is the label `one` reached by `goto` with u and v exchanged), every allocation and alias pattern: the result is well formed
+    and equal to lcm (|u|, |v|) (0 for a zero operand, where nothing but `SIZ (r)` is written); nothing else is touched.
+    PARTIAL: the full statement has no `hsmall`; the general arm (lcm.c:73-83) is run only. -/
+theorem mpz_lcm_small_alloc_safe_partial (s : St) (r u v gid : Nat) (hs : s.ok = true)
+    (hr : OWF (s.h r)) (hu : OWF (s.h u)) (hv : OWF (s.h v))
+    (hsmall : (s.h u).size.natAbs ≤ 1 ∨ (s.h v).size.natAbs ≤ 1) :
+    ∃ m, Safe s (mpz_lcm s r u v gid) r m ∧
+      Mpz.toInt m = (Nat.lcm (Mpz.toInt (view (s.h u))).natAbs (Mpz.toInt (view (s.h v))).natAbs : Nat) := by
+  have ha : 1 ≤ (s.h r).buf.alloc := by have := hr.2.1; simpa [view] using this
+  have zero : Safe s (s.setSize r 0) r ⟨(s.h r).buf.alloc, 0, []⟩ :=
+    ⟨by simpa using hs, ⟨by simpa using hr.1, by simp [view, Mpz.WF, ha, Limbs]⟩, fun x hx => setSize_other _ _ _ hx, by simp [view]⟩
+  by_cases h0 : (s.h u).size = 0 ∨ (s.h v).size = 0
+  · have e : mpz_lcm s r u v gid = s.setSize r 0 := by
+      unfold mpz_lcm lcm_
+      rcases h0 with h | h <;> simp [St.SIZ, h]
+    rw [e]
+    refine ⟨_, zero, ?_⟩
+    rw [toInt_natAbs, toInt_natAbs]
+    rcases h0 with h | h
+    · have : (view (s.h u)).d = [] := by simp [view, h]
+      rw [this]; simp [Mpz.toInt, val]
+    · have : (view (s.h v)).d = [] := by simp [view, h]
+      rw [this]; simp [Mpz.toInt, val]
+  · have hu0 : (s.h u).size ≠ 0 := fun h => h0 (Or.inl h)
+    have hv0 : (s.h v).size ≠ 0 := fun h => h0 (Or.inr h)
+    by_cases hv1 : (s.h v).size.natAbs = 1
+    · have e : mpz_lcm s r u v gid = lcmOne 1 s r u v (s.h u).size.natAbs := by
+        unfold mpz_lcm lcm_
+        simp [St.SIZ, hu0, hv0, hv1]
+      rw [e]
+      exact ⟨_, lcmOne_safe s r u v hs hr hu hv hu0 hv1⟩
+    · have hu1 : (s.h u).size.natAbs = 1 := by omega
+      have e : mpz_lcm s r u v gid = lcmOne 1 s r v u (s.h v).size.natAbs := by
+        unfold mpz_lcm lcm_
+        simp [St.SIZ, hu0, hv0, hv1, hu1]
+      rw [e, Nat.lcm_comm]
+      exact ⟨_, lcmOne_safe s r v u hs hr hv hu hv0 hu1⟩
+
+-- lcm (6, B^2 - 1): u has one limb, the `goto one` with the operands exchanged; lcm (0, v) = 0 stores only the size
+example : let s := mpz_lcm ex6 0 2 1 3; s.ok = true ∧ view (s.h 0) = ⟨3, 3, [B - 2, B - 1, 1]⟩ := by decide
+example : let s := mpz_lcm ex6 1 0 1 3; s.ok = true ∧ view (s.h 1) = ⟨2, 0, []⟩ := by decide
+
 /-! ## mpz_gcd (mpz/gcd.c) -/
 
 /-- mpz_gcd (mpz/gcd.c), the arms before TMP_MARK (gcd.c:44-77: u = 0, v = 0, u of one limb, v of one limb), every allocation and
